@@ -107,11 +107,13 @@ package storage
 //@     modifies exhausted(self)
 //@     ensures err == nil ==> has(kvmap(self), str(arg0)) && result == kvmap(self)[str(arg0)]      // C09.layer-get
 //@     ensures err != nil ==> !has(kvmap(self), str(arg0)) || old(exhausted(self))                  // C09.layer-get
+//@     ensures old(exhausted(self)) ==> exhausted(self)                                               // C09.gas-monotone
 //@   method Exists
 //@     requires kvmap(self) != nil
 //@     modifies exhausted(self)
 //@     ensures result ==> has(kvmap(self), str(arg0))                                                 // C09.layer-exists
 //@     ensures !result ==> !has(kvmap(self), str(arg0)) || old(exhausted(self))                      // C09.layer-exists
+//@     ensures old(exhausted(self)) ==> exhausted(self)                                               // C09.gas-monotone
 //@   method Set
 //@     requires kvmap(self) != nil
 //@     modifies kvmap(self)[str(arg0)], exhausted(self), rep(self)
@@ -314,6 +316,11 @@ package storage
 //@   claims !old(exhausted(s.cache)) && !vHas(s)[str(key)] ==> err == nil && len(result) == 0                 // C09.deleted-absent
 //@   claims vHas(s)[str(key)] ==> err == nil && result == vVal(s)[str(key)]                                   // C09.read-recent-gas
 //@   ensures wfState(s)                                                                                       // C09.wf
+// a read never fails: a layer that refuses (gas) or misses the key falls through to the next one, and the tree answers
+// (value, nil) for every key. Callers throughout the code base drop this error (balance.Store.get and others), so a Get
+// that starts returning one silently turns into "balance 0" there.
+//@   ensures err == nil                                                                                       // C09.read-total
+//@   ensures old(exhausted(s.cache)) ==> exhausted(s.cache)                                                   // C09.gas-monotone
 
 //@ func (*State).Exists
 //@   requires wfState(s)
@@ -321,6 +328,7 @@ package storage
 //@   ensures !old(exhausted(s.cache)) && vHas(s)[str(key)] ==> result                                         // C09.read-recent
 //@   claims !old(exhausted(s.cache)) && !vHas(s)[str(key)] ==> !result                                        // C09.deleted-absent
 //@   ensures wfState(s)                                                                                       // C09.wf
+//@   ensures old(exhausted(s.cache)) ==> exhausted(s.cache)                                                   // C09.gas-monotone
 
 //@ func (*State).Set
 //@   requires wfState(s)
